@@ -410,11 +410,13 @@ func (d *dumper) dumpFn(fn *ssa.Function) {
 				ij["x"] = d.operand(fc, ins.X)
 				ij["y"] = d.operand(fc, ins.Index)
 				ij["xt"] = d.tid(ins.X.Type())
+				ij["yt"] = d.tid(ins.Index.Type())
 			case *ssa.IndexAddr:
 				ij["op"] = "IndexAddr"
 				ij["x"] = d.operand(fc, ins.X)
 				ij["y"] = d.operand(fc, ins.Index)
 				ij["xt"] = d.tid(ins.X.Type())
+				ij["yt"] = d.tid(ins.Index.Type())
 			case *ssa.Jump:
 				ij["op"] = "Jump"
 			case *ssa.Lookup:
